@@ -218,7 +218,7 @@ func (rl *relocator) secretsOf(f keyFile) [][]byte {
 
 func (rl *relocator) caseOf(f, g keyFile) caseT {
 	return caseT{Scenario: "relocate", Format: rl.formatName, R: rl.w.r, A: f.owner, B: g.owner,
-		AName: string(ids[f.owner]), BName: string(ids[g.owner]), From: f.path, To: g.path}
+		AName: string(ids[f.owner]), BName: string(ids[g.owner]), From: f.path, To: g.path, IDSet: idSet}
 }
 
 func normPath(p string) string {
